@@ -23,7 +23,7 @@ import (
 )
 
 type boardStats struct {
-	FollowerReads, ConcurrentReads                                            int
+	FollowerReads, ConcurrentReads, ContentsCompared                          int
 	Ops, Histories, Sends, Reads, MaxWriters, DistinctSizes, ProcessHistories int
 	OutcomeHist                                                               map[string]int
 	Monitors                                                                  []string
@@ -35,6 +35,18 @@ type boardStats struct {
 // given number of offset digits), tagged with writer/seq in Event.
 func msgOfLineLen(target int, tag string, offDigits int) storage.Message {
 	m := storage.Message{ID: "00000000-0000-0000-0000-000000000000", Event: tag, Offset: 0}
+	// the other fields of a message vary from message to message (a private message, then a broadcast; a signed one, then
+	// an unsigned one): what is read back for an entry is that entry's own content, whatever the lines before it held
+	var w, k int
+	fmt.Sscanf(tag, "w%d-%d", &w, &k)
+	if (w+k)%3 == 1 {
+		m.RecipientAddr = fmt.Sprintf("participant-%d", k%4)
+	}
+	if (w+2*k)%4 != 0 {
+		m.Signature = bytes.Repeat([]byte{byte(0x30 + (w+k)%40)}, 64)
+		m.SenderAddr = fmt.Sprintf("writer-%d", w)
+	}
+	fill := byte('A' + (3*w+k)%26)
 	base, _ := json.Marshal(m)
 	overhead := len(base) - 1 + offDigits // offset 0 has one digit
 	// data is base64: null (4 chars) -> "…" ; choose data length then pad the round id
@@ -46,7 +58,7 @@ func msgOfLineLen(target int, tag string, offDigits int) storage.Message {
 	if d < 0 {
 		d = 0
 	}
-	m.Data = bytes.Repeat([]byte{'A'}, d)
+	m.Data = bytes.Repeat([]byte{fill}, d)
 	b2, _ := json.Marshal(m)
 	pad := target - (len(b2) - 1 + offDigits)
 	for pad < 0 && d >= 3 {
@@ -81,6 +93,28 @@ type fileEntry struct {
 	Offset uint64
 	Size   int
 	Tag    string
+	// Canon: the line decoded on its own (a fresh value) and written out again
+	Canon string
+}
+
+// diffFields: the fields in which two messages (as JSON objects) differ, with the lengths of their values
+func diffFields(got, want string) string {
+	var a, b map[string]json.RawMessage
+	json.Unmarshal([]byte(got), &a)
+	json.Unmarshal([]byte(want), &b)
+	var out []string
+	for k, v := range a {
+		if string(b[k]) != string(v) {
+			out = append(out, fmt.Sprintf("%s: read %d bytes, line has %d", k, len(v), len(b[k])))
+		}
+	}
+	for k, v := range b {
+		if _, ok := a[k]; !ok {
+			out = append(out, fmt.Sprintf("%s: missing, line has %d bytes", k, len(v)))
+		}
+	}
+	sort.Strings(out)
+	return strings.Join(out, "; ")
 }
 
 func readBoard(path string) ([]fileEntry, error) {
@@ -97,7 +131,8 @@ func readBoard(path string) ([]fileEntry, error) {
 		if err := json.Unmarshal(ln, &m); err != nil {
 			return nil, fmt.Errorf("bad line: %w", err)
 		}
-		out = append(out, fileEntry{m.ID, m.Offset, len(ln), m.Event})
+		cz, _ := json.Marshal(m)
+		out = append(out, fileEntry{m.ID, m.Offset, len(ln), m.Event, string(cz)})
 	}
 	return out, nil
 }
@@ -328,6 +363,7 @@ func runBoardDiff(outDir string, seed int64, tier string) {
 				}
 			}
 		}
+		contentReports := 0
 		// reads from fresh handles: every offset, some ignore lists
 		for r := 0; r < len(entries)+2; r++ {
 			var ignIDs, ignOffs []string
@@ -354,6 +390,15 @@ func runBoardDiff(outDir string, seed int64, tier string) {
 				parts := make([]string, len(msgs))
 				for i, m := range msgs {
 					parts[i] = fmt.Sprintf("%d:%s", m.Offset, hs(m.ID))
+					// every entry comes back as it was written: the message decoded from its own line, all of it (payload,
+					// signature, recipient …), whatever stood on the lines before it
+					if int(m.Offset) < len(entries) && entries[m.Offset].ID == m.ID {
+						st.ContentsCompared++
+						if cz, _ := json.Marshal(m); string(cz) != entries[m.Offset].Canon && contentReports < 5 {
+							contentReports++
+							st.Monitors = append(st.Monitors, fmt.Sprintf("C16 read_suffix: history %d GetMessages(%d): the entry at offset %d comes back different from the line that holds it: %s", h, r, m.Offset, truncate(diffFields(string(cz), entries[m.Offset].Canon), 300)))
+						}
+					}
 				}
 				ob = "ok [" + strings.Join(parts, ",") + "]"
 			}
